@@ -142,13 +142,25 @@ def gen_plan(rng, index, tier):
         k = rng.randrange(1, nact)
         actors[k]["extends"] = actors[0]["name"]
         actors[k]["function"] = actors[0]["function"]
+    helpers = []
+    if rng.random() < 0.3:
+        # declared dependencies: helper interfaces no plugin exposes; the stack must get each exactly
+        # once (switched off, forced at beginning-of-life) whatever the state of the one that needs it
+        nh = rng.choice([1, 1, 2])
+        helpers = [{"name": f"help{k}", "function": f"helpf{k}", "kwargs": {}} for k in range(nh)]
+        if nh == 2 and rng.random() < 0.5:
+            helpers[0]["needs"] = ["help1"]  # a helper that needs a helper
+        for a in rng.sample(actors, rng.randint(1, len(actors))):
+            a["needs"] = sorted(rng.sample([h["name"] for h in helpers], rng.randint(1, nh)))
+            if nact >= 2 and rng.random() < 0.25:
+                a["needs"].append(rng.choice([b["name"] for b in actors if b is not a]))  # present already
     st = dict(hist_cs)
     if "cycles" in st:
         # detailed input: the simple keys stay at their defaults
         st.update({"burnSteps": 4, "cycleLength": 365.242199, "availabilityFactor": 1.0})
     st["db"] = rng.random() < 0.9
     if rng.random() < 0.35:
-        names = [a["name"] for a in actors] + ["history", "snapshot"]
+        names = [a["name"] for a in actors] + ["history", "snapshot"] + [h["name"] for h in helpers]
         st["deferredInterfaceNames"] = sorted(rng.sample(names, rng.randint(1, min(3, len(names)))))
         st["deferredInterfacesCycle"] = rng.randint(0, n)
     coupling = rng.random() < 0.4
@@ -169,7 +181,8 @@ def gen_plan(rng, index, tier):
                             conv[f"{c},{nd}"] = [False] * k + [True] if k < 9 else [False]
                 a["conv"] = conv
                 if rng.random() < 0.3:
-                    a["vectorCoupler"] = True  # the coupled quantity is a list the interface updates in place
+                    # the coupled quantity is a list, or a table of rows, that the interface updates in place
+                    a["vectorCoupler"] = rng.choice([True, "nested"])
         st["tightCouplingSettings"] = tcs
     steps = []
     # truthy returns: the documented halt request at BOC, and truthy values from other hooks
@@ -194,6 +207,8 @@ def gen_plan(rng, index, tier):
         a = rng.choice(actors)
         steps.append({"life": 0, "actor": a["name"], "hook": "EveryNode", "cycle": 0, "node": 0, "op": "clockjump", "dt": rng.choice([-3600.0, 86400.0, -1e7])})
     cfg = {"reactor": "smallest", "settings": st, "actors": actors, "fs_latencies": [rng.choice([0, 0, 0.05, 1.0]) for _ in range(rng.randint(0, 6))]}
+    if helpers:
+        cfg["helpers"] = helpers
     # restart at a node the first life wrote
     if st["db"] and rng.random() < 0.3 and not any(s["op"] == "halt" and s["hook"] == "BOC" for s in steps):
         nodes = schedule.node_numbering(hist)[1:]
@@ -213,6 +228,12 @@ def simplify(plan):
     if cfg.get("fs_latencies"):
         p = copy.deepcopy(plan)
         p["config"]["fs_latencies"] = []
+        yield p
+    if cfg.get("helpers"):
+        p = copy.deepcopy(plan)
+        p["config"].pop("helpers")
+        for a in p["config"]["actors"]:
+            a.pop("needs", None)
         yield p
     if len(cfg["actors"]) > 1:
         for k in range(len(cfg["actors"])):
@@ -361,6 +382,32 @@ def check_arithmetic(cs, hist):
             raise OracleFailure("C15.history", f"cycle {c}: sum(step lengths)={sum(got_steps)} != availability x cycle length={float(af[c]) * cl[c]}", {"fn": "sum"})
 
 
+def expected_helpers(cfg, exposed):
+    """Names of the interfaces the declared dependencies add: every dependency of every interface of
+    the stack (and of every added one) that the stack has neither by name nor by function - whatever
+    the enabled / forced / deferred state of the interface that declares it."""
+    specs = {x["name"]: x for x in list(cfg.get("helpers", [])) + list(cfg["actors"])}
+    have = [(s["name"], s["function"]) for s in exposed]
+    added = []
+    grew = True
+    while grew:
+        grew = False
+        for nm, _f in list(have):
+            sp = specs.get(nm, {})
+            while "needs" not in sp and sp.get("extends") in specs:
+                sp = specs[sp["extends"]]  # a derived interface class inherits the declaration
+            for need in sp.get("needs", []):
+                d = specs.get(need)
+                if d is None:
+                    continue
+                if any(n == d["name"] or f == d["function"] for n, f in have):
+                    continue
+                have.append((d["name"], d["function"]))
+                added.append(d["name"])
+                grew = True
+    return added
+
+
 def check_exclusion(o, director, cfg, stack, probe_names):
     """Direct calls of interactAll*(excludedInterfaceNames=...) after the run."""
     deferred = list(cfg["settings"].get("deferredInterfaceNames", []))
@@ -402,12 +449,23 @@ def execute(plan):
         cs, o, infos = enginea.build_life(cfg, scratch, 0, director)
         stack = enginea.stack_of(o)
         exp_stack = schedule.stack_order([(i[0], i[1], i[3], i[4]) for i in infos])
-        if [s["name"] for s in stack] != exp_stack:
-            raise OracleFailure("C15.stack", f"stack {[s['name'] for s in stack]} expected (sorted by ORDER) {exp_stack}", {})
+        exp_helpers = expected_helpers(cfg, stack[: len(exp_stack)])
+        if exp_helpers:
+            probes["dependency_attached"] = len(exp_helpers)
+        got_names = [s["name"] for s in stack]
+        if got_names[: len(exp_stack)] != exp_stack or sorted(got_names[len(exp_stack):]) != sorted(exp_helpers):
+            raise OracleFailure(
+                "C15.stack",
+                f"stack {got_names} expected (sorted by ORDER) {exp_stack} followed by the declared dependencies {sorted(exp_helpers)}",
+                {"helpers": bool(cfg.get("helpers"))},
+            )
         if len(exp_stack) < len(infos):
             probes["function_replacement_rule"] = 1
         for s in stack:
-            kw = next(i[2] for i in infos if i[1] == s["name"])
+            if s["name"] in exp_helpers:
+                kw = {"enabled": False, "bolForce": True}  # a dependency: switched off, forced at beginning-of-life
+            else:
+                kw = next(i[2] for i in infos if i[1] == s["name"])
             want = (kw.get("enabled", True), kw.get("bolForce", False), kw.get("reverseAtEOL", False))
             if (s["enabled"], s["bolForce"], s["reverseAtEOL"]) != want:
                 raise OracleFailure("C15.stack", f"{s['name']} flags {(s['enabled'], s['bolForce'], s['reverseAtEOL'])} expected {want}", {})
@@ -453,6 +511,8 @@ def execute(plan):
             director.cval.clear()
             cs2, o2, infos2 = enginea.build_life(cfg, scratch, 1, director, extra_settings=extra)
             stack2 = enginea.stack_of(o2)
+            if [(s["name"], s["enabled"], s["bolForce"], s["reverseAtEOL"]) for s in stack2] != [(s["name"], s["enabled"], s["bolForce"], s["reverseAtEOL"]) for s in stack]:
+                raise OracleFailure("C15.stack", f"the restarted run built another stack: {[s['name'] for s in stack2]} after {[s['name'] for s in stack]}", {"life": 1})
             nodes = schedule.node_numbering(hist)
             k = nodes.index((rs["startCycle"], rs["startNode"]))
             prev = nodes[k - 1]
